@@ -53,6 +53,11 @@ pub enum JsonLdError {
     /// An UTF-8 error was encountered while parsing from a [`BufRead`](std::io::BufRead)
     #[error("{0}")]
     Utf8(#[from] std::string::FromUtf8Error),
+
+    /// The base IRI is not supported by the underlying JSON-LD processor
+    /// (whose IRI parser is slightly stricter than Sophia's)
+    #[error("unsupported base IRI: {0}")]
+    UnsupportedBase(String),
 }
 
 impl From<Meta<Error<Location<ArcIri, Span>>, Location<ArcIri, Span>>> for JsonLdError {
